@@ -379,7 +379,7 @@ class NumHooks(TokenStreamHooks):
                     return float(a)
                 except ValueError:
                     return None
-            return None
+            return A.TOP if fname != 'float' else None       # a numeric object built from a value that is not determined
         if fname in ('glue', 'muglue') and len(args) == 3:
             return (fname,) + tuple(args)
         if fname == 'isinstance' and len(args) == 2 and isinstance(args[0], A.TokStr) and text(node.args[1]).endswith('ParameterCommand'):
